@@ -60,6 +60,11 @@ def make_program(name, orc_holder):
         P.statuses = ["S", "I"]
         P.rate = lambda G, node, st: TAU * nI(G, node, st) if st[node] == "S" else GAMMA
         P.choose = lambda G, node, st: "I" if st[node] == "S" else "S"
+    elif name == "pressure":
+        # infection pressure that can overtake every rate already in the table (0.5 per infected neighbour vs recovery 0.7)
+        P.statuses = ["S", "I"]
+        P.rate = lambda G, node, st: 0.5 * nI(G, node, st) if st[node] == "S" else GAMMA
+        P.choose = lambda G, node, st: "I" if st[node] == "S" else "S"
     elif name in ("thr1", "thr2"):
         th = int(name[-1])
         P.statuses = ["S", "I"]
@@ -329,7 +334,7 @@ def run_spec(spec, props=("C15",)):
     return A.result(props)
 
 
-PROGRAMS = ["SIR", "SIR_set", "SIR_iter", "SIR_int0", "decay", "tinydecay", "SIS", "thr1", "thr2", "global", "twoway", "lazy"]
+PROGRAMS = ["SIR", "SIR_set", "SIR_iter", "SIR_int0", "decay", "tinydecay", "SIS", "pressure", "thr1", "thr2", "global", "twoway", "lazy"]
 
 
 def specs(tier):
@@ -338,7 +343,7 @@ def specs(tier):
     gs = [(n, es) for n, es in gr.small_graphs(3)]
     gs += [gr.NAMED[k] for k in (("C4", "S4", "P4", "K4") if thorough else ("C4", "S4"))]
     for pname in PROGRAMS:
-        alphabet = {"SIR": "SIR", "SIR_set": "SIR", "SIR_iter": "SIR", "SIR_int0": [1, 2, 0], "decay": "AB", "tinydecay": "AB", "SIS": "SI", "thr1": "SI", "thr2": "SI",
+        alphabet = {"SIR": "SIR", "SIR_set": "SIR", "SIR_iter": "SIR", "SIR_int0": [1, 2, 0], "decay": "AB", "tinydecay": "AB", "SIS": "SI", "pressure": "SI", "thr1": "SI", "thr2": "SI",
                     "global": "SIR", "twoway": "SIR", "lazy": "AB"}[pname]
         term = pname in ("SIR", "SIR_set", "SIR_iter", "SIR_int0", "global", "decay", "tinydecay")
         for (n, es) in gs:
